@@ -382,6 +382,13 @@ def gen_installed(tier):
         for how in ("authlen", "privlen", "privempty", "privalg"):
             cfg = Cfg("v3", auth=auth, priv=priv)
             yield {"cfgs": [cfg.describe()], "history": [["get", 0, "sys"], ["set_keys_bad", 0, how], ["get", 0, "sys"], ["reply", 0, "ok", 1], ["refresh", 0], ["get_many", 0, "pair"]]}
+    # the installed key survives datagrams that cannot be decrypted (ciphertext of 8m+k octets, garbage, a short AES reply)
+    for auth, priv in ((1, 1), (2, 1), (1, 2), (2, 2)):
+        cfg = Cfg("v3", auth=auth, priv=priv)
+        h = [["get", 0, "sys"], ["reply", 0, "ok", 1]]
+        for k in (1, 3, 7):
+            h += [["get", 0, "sys"], ["reply", 0, "partial", k] if priv == 1 else ["reply", 0, "cut", 45, k], ["reply", 0, "garbage"], ["get_many", 0, "pair"], ["reply", 0, "octets", 30 + k]]
+        yield {"cfgs": [cfg.describe()], "history": h}
     # identical octets for both keys, every pair of key types
     for auth, priv in ((1, 1), (2, 2), (1, 2), (2, 1)):
         for kt, pkt in itertools.product((0, 1, 2), repeat=2):
